@@ -455,11 +455,12 @@ func (doc *T) derefRequestBody(r RequestBody, refNameResolver RefNameResolver, p
 func (doc *T) derefPaths(paths map[string]*PathItem, refNameResolver RefNameResolver, parentIsExternal bool) {
 	for _, name := range componentNames(paths) {
 		ops := paths[name]
-		pathIsExternal := isExternalRef(ops.Ref, parentIsExternal)
-		// inline the full operations of a path item taken from another file; a reference that stays
-		// inside the document ("#/paths/...") is kept (the path item it names may be reached again from
-		// below itself)
-		if ops.Ref != "" && (!strings.HasPrefix(ops.Ref, "#") || parentIsExternal) {
+		// A path item reference leaves the document when it names another file, or when the path item
+		// that holds it was itself taken from another file.  Only such a reference is inlined; one that
+		// stays inside the document ("#/paths/...") is kept, and what lies below it is not external either
+		// (the path item it names may be reached again from below itself).
+		pathIsExternal := ops.Ref != "" && (!strings.HasPrefix(ops.Ref, "#") || parentIsExternal)
+		if pathIsExternal {
 			ops.Ref = ""
 		}
 
